@@ -16,7 +16,7 @@ CLAIM = {
  "C08": "Lean theorems over the loop models: per-element step for normal / continue / break results (break stops, continue keeps the partial output and goes on, elements in list order), block folding of control objects, the counter iterator's running count, and — for every input — the parser's loop flag is SCOPED: every parse function returns with the inForBlock flag it was called with (all 20 functions, automated walk), so break/continue are accepted exactly inside loops, however nested. Partial: the unrolling equivalence over whole programs is decided by the oracle.",
  "C09": "Lean theorems: EVALUATOR-WIDE — every one of the 27 evaluator functions returns (value or error) with the current context it was started with, for every program, data and fuel (one automated walk; withCtx and renderIn are the only places that switch and they switch back); every scoping construct runs its body under withCtx on a fresh child context and the caller's context is current again afterwards (on success and on error); writes go to the current frame only; with C10_isolation a write in a child is invisible to ancestors and siblings.",
  "C10": "Lean refinement theorem: for EVERY history of NewContextWith / New / Set, Value and Has of the concrete store (association lists, parent indexes, helper injection) equal those of an abstract scope-chain spec in which a scope is a partial function; corollaries: value-after-set, nearest binding wins, Has ⇔ non-nil, isolation of ancestors and siblings.",
- "C11": "PARTIAL. Lean theorems about the logic part: dotted-path split/join, assignCallee wiring (the indexed element is the root of the member chain, also for a[i].b.f()), two-sided bounds check, missing key = nil, member of nil = nil. Field/method navigation over reflected Go values is outside the model and is decided by the self-describing-data oracle.",
+ "C11": "Lean theorems: EVALUATING A DOTTED PATH IS NAVIGATION (C11_path_is_navigation: for every path length, data graph of structs and pointers, state and sufficient fuel, root.f1.….fn evaluates to the left-to-right fold of the one-step member function — nil has nil members, one pointer dereference in front, struct field lookup by name, nil pointer field = nil, non-nil pointer field dereferenced, unexported = error, anything else has no members — and the state is untouched), the right field and never another element's value, pointers transparent, incomplete navigation = error or nil; plus the logic of dotted-path split/join, assignCallee wiring (the indexed element is the root of the member chain, also for a[i].b.f()), two-sided bounds check, missing key = nil. Struct and pointer values are tied to /repo by the render-struct correspondence stream. PARTIAL: methods, embedded structs and the index-then-member rebinding are reflected Go behaviour outside the model and are decided by the self-describing-data oracle.",
  "C12": "Lean theorems stating the binder's decision logic outright: too many arguments / too few for a variadic ⇒ error with nothing evaluated; arguments are evaluated left to right and binding stops at the first failure; unassignable ⇒ error, not invoked; assignable ⇒ passed unchanged in position; nil ⇒ zero value (fixed and variadic); the variadic tail takes all remaining arguments; helper errors keep their cause chain.",
  "C13": "Lean theorems over generated facts (the only ranges over Go maps in the evaluator are the four frame copies; hash literals range over Order; no assignment through AST-typed variables, program only assigned in Parse, no package-level writes), order-irrelevance of frame copies for any two visiting orders, and transparency of the cache for every history. PARTIAL by nature: Go's map-order randomisation is quantified over, not exhibited.",
  "C14": "Lean theorem lockset_sound (any number of threads, any programs, any schedule) instantiated with the generated lock/access facts of context.go and plush.go: no reachable race on Context.data or the cache; executions write only local state; isolation of read-only sharing. PARTIAL by nature: weak memory and unexecuted interleavings are explored with the race detector, not proved.",
